@@ -82,6 +82,7 @@ def run_property(prop, tier, seed, args):
     eng = Engine(REPO)
     load_specs(eng)
     for u in units:
+        eng.contracts_all[u.id] = u
         if u.opts.get("callee", "[" not in u.id):
             eng.contracts[u.key] = u
     for m in mods:
@@ -100,9 +101,14 @@ def run_property(prop, tier, seed, args):
     undecided_units = []
     func_hashes = {}
     per_unit_obs = {}
+    bounded_units = [u.id for u in selected if u.opts.get("bounded_only")]
     for u in selected:
         n0 = len(eng.obligations)
         c0 = len(eng.covers)
+        if u.opts.get("bounded_only"):
+            # not brought within the verifier's reach: run-time contract check only (labelled bounded)
+            per_unit_obs[u.id] = (n0, n0)
+            continue
         try:
             if u.kind == "function":
                 prove_unit(eng, u, prop)
@@ -133,7 +139,17 @@ def run_property(prop, tier, seed, args):
     discharged = [o for o in obs if o.status == "unsat"]
     refuted = [o for o in obs if o.status in ("sat", "sat-core")]
     unknown = [o for o in obs if o.status not in ("unsat", "sat", "sat-core")]
-    vacuous = [c for c in covers if c.status == "unsat"]
+    # vacuity: an unsatisfiable precondition, or a unit none of whose return paths is reachable
+    # (a single dead return path is dead code under the contract, not vacuity)
+    dead = [c for c in covers if c.status == "unsat"]
+    vacuous = [c for c in dead if c.name.endswith("cover:pre")]
+    by_unit = {}
+    for c in covers:
+        if "/cover:return" in c.name:
+            by_unit.setdefault(c.name.split("/cover:")[0], []).append(c)
+    for un, cs in by_unit.items():
+        if cs and all(c.status == "unsat" for c in cs):
+            vacuous.extend(cs)
     disagree = [o for o in obs if o.raw.get("disagree")]
     if args.dump:
         os.makedirs(args.dump, exist_ok=True)
@@ -143,7 +159,7 @@ def run_property(prop, tier, seed, args):
                 fh.write(o.smt_full or o.smt_core or "")
     if args.verbose:
         for o in sorted(obs + covers, key=lambda o: -(o.time + o.raw.get("prep", 0)))[:12]:
-            print(f"  SLOW {o.time:6.1f}s prep={o.raw.get('prep', 0):5.1f}s {o.name} {o.raw.get('log')}")
+            print(f"  SLOW {o.time:6.1f}s prep={o.raw.get('prep', 0):5.1f}s {o.name} {o.raw.get('log')} FIRST={o.raw.get('first_attempt')}")
     if args.verbose:
         for o in refuted + unknown:
             print(f"  GOAL {o.name}: {str(o.goal)[:1500]}")
@@ -162,7 +178,7 @@ def run_property(prop, tier, seed, args):
             "prop": prop,
             "tier": tier,
             "seed": seed,
-            "units": [u.id for u in selected if u.runtime],
+            "units": [u.id for u in selected if u.runtime and u.id not in info.get("cudasim_units", [])],
             "refuted": [{"obligation": o.name, "unit": o.name.split("/")[1], "kind": o.kind, "label": o.name.split(":", 1)[1] if ":" in o.name else "", "model": o.model} for o in refuted],
             "bounded": info.get("bounded", []),
             "known": [f for f in known_findings().get("findings", []) if f.get("property") == prop],
@@ -247,9 +263,9 @@ def run_property(prop, tier, seed, args):
     proved_names = {o.name for o in discharged}
     for uid, fl in rt_viol:
         fid = fl.get("known_id")
-        if fid:
-            f = [x for x in known if x.get("id") == fid]
-            out_lines.append(f"KNOWN-FINDING: property={prop} {f[0].get('what') if f else fid}")
+        f = [x for x in known if x.get("id") == fid] if fid else []
+        if f:
+            out_lines.append(f"KNOWN-FINDING: property={prop} {f[0].get('what')}")
             continue
         path = os.path.join(VERIF, "replays", prop, f"runtime_{uid}_{fl.get('label','x')}".replace("/", "_").replace(":", "_").replace("[", "_").replace("]", "_") + ".json")
         with open(path, "w") as fh:
@@ -310,8 +326,10 @@ def run_property(prop, tier, seed, args):
         "functions_under_contract": func_hashes,
         "units": [u.id for u in selected],
         "undecided_units": undecided_units,
+        "bounded_only_units": [{"unit": b, "reason": unit_by_id[b].opts.get("bounded_only"), "note": "contract checked at run time on seeded samples only; not counted in obligations/discharged"} for b in bounded_units],
         "covers_checked": len(covers),
         "covers_unsat": [c.name for c in vacuous],
+        "dead_paths_under_contract": [c.name for c in dead if c not in vacuous],
         "samples": [{"obligation": o.name, "status": o.status, "backend": o.backend, "time_s": round(o.time, 3)} for o in (obs[:12] + refuted[:8])],
         "not_decided": info.get("not_decided", []),
         "known_findings": [{"obligation": o.name, "what": f.get("what")} for o, f in known_hit],
